@@ -17,7 +17,10 @@ Record case := {
   c_cfg : config;                       (* what ReadInConfig gave the updater's process *)
   c_dir : list (name * Z);              (* the configuration directory when the updater starts *)
   c_table : list (Z * config);
-  c_hist : list (event * obs)
+  c_hist : list (event * obs);
+  (* further runs: dastard is killed during (or after) the last save of the run before - the directory is
+     left as element k of that save's trace - and started again: (k, history of the new run) *)
+  c_more : list (Z * list (event * obs))
 }.
 
 Definition zlookup {V} := @lookup Z V Z.eqb.
@@ -101,17 +104,42 @@ Definition fill (tb : list (Z * config)) (x : (event * obs) * out) : option out 
   | ((_, o), _) => resolve tb o
   end.
 
+(* one run from state y0: ((code, first differing event), (final state, the model's outputs)) *)
+Definition run_verdict (tb : list (Z * config)) (y0 : sys) (h : list (event * obs))
+  : (Z * Z) * (sys * list out) :=
+  let evs := map fst h in
+  let '(y1, model) := run y0 evs in
+  match map_opt (fill tb) (combine h model) with
+  | Some impl =>
+      let d := first_diff 0 impl model in
+      ((verdict_code (d =? -1) (C16_check (combine evs impl)), d), (y1, model))
+  | None => ((1, -2), (y1, model))
+  end.
+
+Fixpoint last_trace (os : list out) (d : list (fs entry)) : list (fs entry) :=
+  match os with
+  | [] => d
+  | Saved tr _ :: r => last_trace r tr
+  | _ :: r => last_trace r d
+  end.
+
+(* the runs after a kill: each starts from the directory the model predicts for the kill point; event
+   indices of run n are reported as 1000 n + index *)
+Fixpoint more_verdict (tb : list (Z * config)) (y : sys) (model : list out)
+         (more : list (Z * list (event * obs))) (base : Z) : Z * Z :=
+  match more with
+  | [] => (0, -1)
+  | (k, h) :: r =>
+      let f := nth (Z.to_nat k) (last_trace model []) (disk y) in
+      let '(v, (y1, m1)) := run_verdict tb (reboot f) h in
+      if fst v =? 0 then more_verdict tb y1 m1 r (base + 1000) else (fst v, snd v + base)
+  end.
+
 Definition verdict (c : case) : Z * Z :=
   match resolve_dir (c_table c) (c_dir c) with
   | Some d0 =>
-      let evs := map fst (c_hist c) in
-      let model := snd (run (init_sys (c_cfg c) d0) evs) in
-      match map_opt (fill (c_table c)) (combine (c_hist c) model) with
-      | Some impl =>
-          let d := first_diff 0 impl model in
-          (verdict_code (d =? -1) (C16_check (combine evs impl)), d)
-      | None => (1, -2)
-      end
+      let '(v, (y1, m1)) := run_verdict (c_table c) (init_sys (c_cfg c) d0) (c_hist c) in
+      if fst v =? 0 then more_verdict (c_table c) y1 m1 (c_more c) 1000 else v
   | None => (1, -2)
   end.
 
@@ -123,5 +151,7 @@ Definition Wt (b : bool) := (Wait, OWait b).
 Definition Sv (now : value) (faults : list bool) (snaps : list (list (name * Z))) (reads : list Z) :=
   (SaveTick now faults, OSave snaps reads).
 Definition Rs (l : list (string * value)) := (Restart, ORest l).
-Definition mk (cfg : config) (d : list (name * Z)) (tb : list (Z * config)) (h : list (event * obs)) : case :=
-  {| c_cfg := cfg; c_dir := d; c_table := tb; c_hist := h |}.
+Definition mkK (cfg : config) (d : list (name * Z)) (tb : list (Z * config)) (h : list (event * obs))
+           (more : list (Z * list (event * obs))) : case :=
+  {| c_cfg := cfg; c_dir := d; c_table := tb; c_hist := h; c_more := more |}.
+Definition mk cfg d tb h := mkK cfg d tb h [].
